@@ -74,7 +74,9 @@ def model_check(tier):
 
     def work(sc):
         mod, d = gen(sc.name, sc.init, sc.progs, qeach=(sc.q == "each"), max_extra=4 + 3 * sum(len(p) for p in sc.progs))
-        r = vlib.tlc(mod, mod + ".cfg", spec_dir=d, workers=2, timeout=3000, xmx="6g")
+        r = vlib.tlc(mod, mod + ".cfg", spec_dir=d, workers=2, timeout=3000, xmx="3g")
+        if r.error:     # a JVM that failed to start under load: one retry
+            r = vlib.tlc(mod, mod + ".cfg", spec_dir=d, workers=2, timeout=3000, xmx="3g")
         return sc.name, r
     gen_n = dist = 0
     names = []
